@@ -16,10 +16,13 @@ Attrs == {"givenName", "mail", "title"}
 Vals  == {"v1", "v2"}
 AnyVal   == Vals \cup {"v9"}                      \* "no value constraint"
 \* research & scholarship releases these of ours (entity_category/refeds.py)
+\* the swamid release table keys most of its bundles by a *pair* of categories (research-and-education together with
+\* eu-adequate-protection / nren-service / hei-service): a provider in only one of the two is entitled to nothing by it
 Entitled(hasCat) == IF hasCat THEN {"givenName", "mail"} ELSE {}
+EntitledSwamid(hasCat, sw) == (IF hasCat THEN {"givenName", "mail"} ELSE {}) \cup (IF sw = "re_eu" THEN {"givenName", "mail"} ELSE {})
 
 \* a1v1twice: the same value set as a1v1only, configured as two overlapping patterns that both match v1
-Policies == {"none", "names12", "a1v1only", "a1v1twice", "perSP_a1", "perSP_fallback_a2", "ec", "ec_names1"}
+Policies == {"none", "names12", "a1v1only", "a1v1twice", "perSP_a1", "perSP_fallback_a2", "ec", "ec_names1", "ec_swamid"}
 \* attribute restrictions that apply to this SP: "none" or [attr -> allowed values] on the listed attributes
 RestrOf(p) == CASE p = "names12" -> [a \in {"givenName", "mail"} |-> AnyVal]
                 [] p \in {"a1v1only", "a1v1twice"} -> [a \in {"givenName", "mail"} |-> IF a = "givenName" THEN {"v1"} ELSE AnyVal]
@@ -27,8 +30,8 @@ RestrOf(p) == CASE p = "names12" -> [a \in {"givenName", "mail"} |-> AnyVal]
                 [] p = "perSP_fallback_a2" -> [a \in {"mail"} |-> AnyVal]
                 [] p = "ec_names1" -> [a \in {"givenName"} |-> AnyVal]
                 [] OTHER -> <<>>                \* no restriction
-HasRestr(p) == p \notin {"none", "ec"}
-EcInForce(p) == p \in {"ec", "ec_names1"}
+HasRestr(p) == p \notin {"none", "ec", "ec_swamid"}
+EcInForce(p) == p \in {"ec", "ec_names1", "ec_swamid"}
 
 Decls == {"none", "req_a1", "req_a1_v2", "req_a3_opt_a2", "opt_a2", "req_a1_v9"}
 Req(d) == CASE d = "req_a1" -> [a \in {"givenName"} |-> AnyVal]
@@ -47,8 +50,11 @@ Prev == {[served |-> FALSE, decl |-> "none", hasCat |-> FALSE]} \cup [served : {
 \* typed: the application hands the values over as byte strings instead of text (same characters).  A value that cannot
 \* be held against a pattern is not thereby allowed.
 Scn == [ident : Identities, upper : BOOLEAN, policy : Policies, decl : Decls, hasCat : BOOLEAN, failOnMissing : BOOLEAN, prev : Prev,
-        typed : BOOLEAN]
-WellFormed(s) == s.typed => ~s.prev.served /\ ~s.upper
+        typed : BOOLEAN,
+        swamidCat : {"none", "re_only", "re_eu"}]         \* swamid categories the provider declares besides
+WellFormed(s) == /\ s.typed => ~s.prev.served /\ ~s.upper
+                 /\ s.swamidCat # "none" => s.policy = "ec_swamid" /\ ~s.prev.served /\ ~s.typed /\ ~s.upper
+                 /\ s.policy = "ec_swamid" => ~s.prev.served /\ ~s.typed
 
 VARIABLES scn, pc, ava, outcome
 vars == <<scn, pc, ava, outcome>>
@@ -67,9 +73,10 @@ Missing(f, d) == \E a \in DOMAIN Req(d) :
                     \/ (f[a] = {} /\ scn.failOnMissing)
                     \/ (f[a] # {} /\ f[a] \cap Req(d)[a] = {})
 
+Ent == IF scn.policy = "ec_swamid" THEN EntitledSwamid(scn.hasCat, scn.swamidCat) ELSE Entitled(scn.hasCat)
 \* Policy.filter.  lenient = requirements treated as wishes (no MissingValue)
 Filter(f, lenient) ==
-    LET s1 == IF EcInForce(scn.policy) THEN Keep(f, Entitled(scn.hasCat))
+    LET s1 == IF EcInForce(scn.policy) THEN Keep(f, Ent)
               ELSE IF Declared(scn.decl) # {} THEN OnAttributes(f, scn.decl) ELSE f
         s2 == IF HasRestr(scn.policy) THEN ByRestr(s1, RestrOf(scn.policy)) ELSE s1
     IN s2
@@ -90,7 +97,7 @@ Construct == pc = "construct" /\ outcome' = "assertion" /\ pc' = "done" /\ UNCHA
 Allowed == [a \in Attrs |->
     LET byIdent == scn.ident[a]
         byRestr == IF HasRestr(scn.policy) THEN (IF a \in DOMAIN RestrOf(scn.policy) THEN RestrOf(scn.policy)[a] ELSE {}) ELSE AnyVal
-        byEc    == IF EcInForce(scn.policy) THEN (IF a \in Entitled(scn.hasCat) THEN AnyVal ELSE {}) ELSE AnyVal
+        byEc    == IF EcInForce(scn.policy) THEN (IF a \in Ent THEN AnyVal ELSE {}) ELSE AnyVal
         \* the SP's declaration applies when it declares anything and no entity-category rule is in force
         byDecl  == IF ~EcInForce(scn.policy) /\ Declared(scn.decl) # {}
                    THEN (IF a \in DOMAIN Req(scn.decl) THEN Req(scn.decl)[a]
